@@ -185,7 +185,16 @@ func OracleResponseMatchesDevice(rc *sim.RunCtx, w *world.World, res *TxResult, 
 	a, b := diffSets(res.Updates, du)
 	c, d := diffSets(res.Deletes, dd)
 	if len(a)+len(b)+len(c)+len(d) > 0 {
-		rc.Report(sim.Item{Prop: "C01", Clause: "C01.response-differs", Step: step,
+		// does any differing path run through a list whose keys are declared in non-alphabetical order (C11's subject)?
+		na := false
+		for _, l := range [][]string{a, b, c, d} {
+			for _, e := range l {
+				if x, _ := pathTraits(w.SI, mustPath(w, strings.SplitN(e, " = ", 2)[0])); x {
+					na = true
+				}
+			}
+		}
+		rc.Report(sim.Item{Prop: "C01", Clause: "C01.response-differs", Step: step, Fields: map[string]string{"nonalpha": fmt.Sprint(na)},
 			Detail: fmt.Sprintf("response-only upd %v del %v; device-only upd %v del %v", a, c, b, d)})
 	}
 }
